@@ -51,7 +51,11 @@ def upper(t):
     return t.update(value=t.value.upper())
 
 
+PRIO = 'start: stmt+\nstmt: a | b\na.2: NAME\nb.1: NAME\nKW: "if"\nNAME: /[a-z]+/\n%ignore " "\n'
+
 CONFIGS = {
+    # the instance is built from a lark Grammar *object* that later instances of the same history share
+    'earley-shared-grammar': (PRIO, dict(parser='earley', lexer='basic', grammar_object=True)),
     'lalr-contextual': (KW, dict(parser='lalr', lexer='contextual')),
     'lalr-basic': (KW, dict(parser='lalr', lexer='basic')),
     'lalr-basic-cb': (KW, dict(parser='lalr', lexer='basic', lexer_callbacks={'NAME': upper})),
@@ -71,6 +75,12 @@ def mk(cfg):
         o['transformer'] = Up()
     if o.get('postlex') == 'MyIndenter':
         o['postlex'] = MyIndenter()
+    if o.pop('grammar_object', False):
+        from lark.load_grammar import load_grammar
+        gobj = load_grammar(g, '<string>', [], False)[0]
+        p = Lark(gobj, **o)
+        p._lmc_grammar_object = gobj
+        return p
     return Lark(g, **o)
 
 
@@ -144,6 +154,11 @@ def op_run(p, cfg, op):
             next(it, None)
             return (obs.tok(t), tuple(sorted(ip.accepts())))
         return guarded(f)
+    if kind == 'new-shared':    # another instance built from the SAME Grammar object, with another priority mode
+        def f():
+            q = Lark(p._lmc_grammar_object, parser='earley', lexer='basic', priority=arg)
+            return canon_any(q.parse(T['ok']))
+        return guarded(f)
     if kind == 'new':           # another instance in the same process
         def f():
             q = mk(cfg) if arg == 'same' else Lark(OTHER, parser='lalr')
@@ -158,6 +173,8 @@ def alphabet(cfg):
     ops = [('parse', 'ok'), ('parse', 'ok2'), ('parse', 'bad-lex'), ('parse', 'bad-syntax'), ('new', 'same'), ('new', 'other')]
     if T['bad-dedent']:
         ops += [('parse', 'bad-dedent'), ('parse', 'open')]
+    if o.get('grammar_object'):
+        ops += [('new-shared', 'invert'), ('new-shared', None), ('new-shared', 'normal')]
     if o.get('lexer') != 'dynamic' and o.get('parser') != 'cyk' or True:
         if o.get('lexer') != 'dynamic':
             ops += [('lex', 'ok'), ('lex1', 'ok2'), ('lex-all', 'ok'), ('lex-all1', 'ok2'), ('lex', 'bad-lex')]
